@@ -120,6 +120,8 @@ def labels(shape, seed, which=0):
     base = np.arange(size, dtype=float) + 11
     if which:
         base = np.random.default_rng(seed + 1).permutation(base)
+        # the second labelling carries one missing value: padding must leave it where it is
+        base[size // 2] = np.nan
     return base.reshape(shape) * (1.0 if (seed + which) % 2 == 0 else -1.0) - (seed % 3)
 
 
@@ -181,19 +183,19 @@ def check_pad(rec, n, per, gb, gf, cb, cf, w, layout, seed, g=None, second=True)
         sy = [1] * v.ndim; sy[iy] = -1
         corner = mx.reshape(sx) & my.reshape(sy)
         corner = np.broadcast_to(corner, e1.shape)
-        ok_edge = np.array_equal(v[~corner], e1[~corner])
-        ok_corner = bool(np.all((v[corner] == e1[corner]) | (v[corner] == e2[corner])))
+        ok_edge = np.array_equal(v[~corner], e1[~corner], equal_nan=True)
+        ok_corner = bool(np.all((v[corner] == e1[corner]) | (v[corner] == e2[corner]) | (np.isnan(v[corner]) & (np.isnan(e1[corner]) | np.isnan(e2[corner])))))
         if not ok_edge:
             # classify: interior moved or new cells wrong
             inner = np.zeros(e1.shape, bool)
             sl = [slice(None)] * v.ndim
             sl[ix] = slice(wx[0], wx[0] + a0.shape[ix]); sl[iy] = slice(wy[0], wy[0] + a0.shape[iy])
-            cls = "interior-changed" if not np.array_equal(v[tuple(sl)], a0) else "new-cells"
+            cls = "interior-changed" if not np.array_equal(v[tuple(sl)], a0, equal_nan=True) else "new-cells"
             if isinstance(per, list):
                 dx = resolve(per, gb, gf, cb, cf, "X", defect=True)
                 dy = resolve(per, gb, gf, cb, cf, "Y", defect=True)
                 d1 = ref_pad(ref_pad(a0, ix, *wx, *dx), iy, *wy, *dy)
-                if (dx, dy) != (rx, ry) and np.array_equal(v[~corner], d1[~corner]):
+                if (dx, dy) != (rx, ry) and np.array_equal(v[~corner], d1[~corner], equal_nan=True):
                     cls = KNOWN_LIST
             rec.violation("pad", cls, case, e1, v)
             return
